@@ -67,7 +67,11 @@ impl TypeDependencyGraph {
         let mut visited = HashSet::new();
         let mut visiting = HashSet::new();
 
-        for type_name in types {
+        // Visit in name order so that the result does not depend on hash iteration order
+        let mut ordered: Vec<&String> = types.iter().collect();
+        ordered.sort();
+
+        for type_name in ordered {
             if !visited.contains(type_name) {
                 self.topological_visit(type_name, &mut sorted, &mut visited, &mut visiting);
             }
@@ -101,7 +105,9 @@ impl TypeDependencyGraph {
 
         // Visit dependencies first
         if let Some(deps) = self.dependencies.get(type_name) {
-            for dep in deps {
+            let mut ordered: Vec<&String> = deps.iter().collect();
+            ordered.sort();
+            for dep in ordered {
                 self.topological_visit(dep, sorted, visited, visiting);
             }
         }
@@ -135,7 +141,10 @@ impl TypeDependencyGraph {
         }
 
         output.push_str("\n🏗️  Discovered Types:\n");
-        for (type_name, struct_info) in &self.resolved_types {
+        let mut resolved: Vec<(&String, &StructInfo)> = self.resolved_types.iter().collect();
+        resolved.sort_by(|a, b| a.0.cmp(b.0));
+
+        for (type_name, struct_info) in resolved.iter().copied() {
             let type_kind = if struct_info.is_enum {
                 "enum"
             } else {
@@ -152,7 +161,8 @@ impl TypeDependencyGraph {
             // Show dependencies
             if let Some(deps) = self.dependencies.get(type_name) {
                 if !deps.is_empty() {
-                    let deps_list: Vec<String> = deps.iter().cloned().collect();
+                    let mut deps_list: Vec<String> = deps.iter().cloned().collect();
+                    deps_list.sort();
                     output.push_str(&format!("  └─ depends on: {}\n", deps_list.join(", ")));
                 }
             }
@@ -160,7 +170,7 @@ impl TypeDependencyGraph {
 
         // Show dependency chains
         output.push_str("\n🔗 Dependency Chains:\n");
-        for type_name in self.resolved_types.keys() {
+        for (type_name, _) in resolved.iter().copied() {
             self.show_dependency_chain(type_name, &mut output, 0);
         }
 
@@ -180,7 +190,9 @@ impl TypeDependencyGraph {
         output.push_str(&format!("{}├─ {}\n", indent_str, type_name));
 
         if let Some(deps) = self.dependencies.get(type_name) {
-            for dep in deps {
+            let mut ordered: Vec<&String> = deps.iter().collect();
+            ordered.sort();
+            for dep in ordered {
                 if indent < 3 {
                     // Prevent too deep recursion in visualization
                     self.show_dependency_chain(dep, output, indent + 1);
@@ -206,7 +218,9 @@ impl TypeDependencyGraph {
         }
 
         // Add type nodes
-        for type_name in self.resolved_types.keys() {
+        let mut type_names: Vec<&String> = self.resolved_types.keys().collect();
+        type_names.sort();
+        for type_name in type_names {
             output.push_str(&format!("  \"{}\" [color=green];\n", type_name));
         }
 
@@ -229,10 +243,14 @@ impl TypeDependencyGraph {
         }
 
         // Add type dependency edges
-        for (type_name, deps) in &self.dependencies {
-            for dep in deps {
-                output.push_str(&format!("  \"{}\" -> \"{}\";\n", type_name, dep));
-            }
+        let mut edges: Vec<(&String, &String)> = self
+            .dependencies
+            .iter()
+            .flat_map(|(type_name, deps)| deps.iter().map(move |dep| (type_name, dep)))
+            .collect();
+        edges.sort();
+        for (type_name, dep) in edges {
+            output.push_str(&format!("  \"{}\" -> \"{}\";\n", type_name, dep));
         }
 
         output.push_str("}\n");
